@@ -53,3 +53,19 @@ func VerifExecuteLink(
 	}
 	return sess.offerer, sess.executeLink(ctx, dcRwc)
 }
+
+// VerifTrackerRole returns the role the real newSessionTracker assigns to the
+// local peer (privKey) for a session with remotePeerID.
+func VerifTrackerRole(
+	ctx context.Context,
+	le *logrus.Entry,
+	privKey crypto.PrivKey,
+	remotePeerID peer.ID,
+) (offerer bool, err error) {
+	w, err := NewWebRTC(ctx, le, nil, &Config{}, privKey, nil)
+	if err != nil {
+		return false, err
+	}
+	_, sess := w.newSessionTracker(remotePeerID.String())
+	return sess.offerer, nil
+}
